@@ -299,6 +299,40 @@ func checkC04(c *Ctx, r *Report) {
 		})
 		r.Check(okDefault, "C04.R4", "other statuses are relayed, not stored", c.Pos(f.Pos()), "default arm returns (nil, nil)", "a status other than 200/304/416 does not fall through to the plain relay (nil, nil)")
 	}
+	// the directives that decide storability are parsed from the very response being stored
+	nH := 0
+	for _, f := range li.Fns {
+		if originPkgPath(f) != proxyPkg {
+			continue
+		}
+		eachInstr(f, func(in ssa.Instruction) {
+			call, ok := in.(*ssa.Call)
+			if !ok || calleeName(call) != "(*"+proxyPkg+".fetcher).handleUpstream200" {
+				return
+			}
+			nH++
+			a := call.Call.Args // f, req, resp, key, upstreamHd
+			resp, hd := a[2], a[4]
+			okParse := false
+			why := "the header directives are not computed in this function from the response passed along"
+			if pc, isCall := resolveVal(hd).(*ssa.Call); isCall && calleeName(pc) == headersPkg+".ParseHeaderDirective" {
+				root, p := fieldPath(pc.Call.Args[0])
+				if len(p) == 1 && p[0] == "Header" && sameVal(root, resp) {
+					okParse = true
+					// no replacement of *resp between the parse and the call
+					eachInstr(f, func(i2 ssa.Instruction) {
+						st, isSt := i2.(*ssa.Store)
+						if isSt && sameVal(st.Addr, resp) && reachableInstr(pc, st, nil) && reachableInstr(st, call, nil) {
+							okParse = false
+							why = "*resp is replaced at " + c.InstrPos(st) + " after its headers were parsed"
+						}
+					})
+				}
+			}
+			r.Check(okParse, "C04.R1", fnKey(f)+": storability is judged by the stored response's own headers", c.InstrPos(call), "upstreamHd = ParseHeaderDirective(resp.Header) of the same resp, not replaced in between", "the response handed to the store path is judged by another response's headers ("+why+"): a no-store / private / expired 200 can be stored")
+		})
+	}
+	r.Floor("C04.R1", nH, 1, "handleUpstream200 call sites")
 	// who calls handleUpstream200
 	for _, f := range c.FuncsNamed("(*" + proxyPkg + ".fetcher).handleUpstream200") {
 		var callers []string
